@@ -77,19 +77,37 @@ Definition inject (v : variant) (k : cfg) (inj : option (N * op)) (pt io : N) (s
   | None => (s, false)
   end.
 
+(* section A of the handshake when another operation runs between its two halves: the base connection record has been fetched
+   (so c was a session connection without a control record), THEN the other operation ran, THEN the control record is registered —
+   whether or not the base record still exists — and the auth handler and ReconcileIndex run *)
+Definition hs_phaseA_late (v : variant) (k : cfg) (c kind x : N) (s : st) : st * option ctl :=
+  let s1 := match get c (reg s) with
+            | Some _ => s
+            | None => bump (registry_register k c (new_ctl s 0) s)
+            end in
+  match get c (reg s1) with
+  | None => (s1, None)
+  | Some r => let r' := hs_mutated r kind x in (reconcile v c (with_reg s1 (set c r' (reg s1))), Some r')
+  end.
+
 Definition step_inj (v : variant) (k : cfg) (s : st) (o : op) (inj : option (N * op)) : st * res * bool :=
   match inj with
   | None => (step v k s o, false)
   | Some _ =>
     match o with
     | Handshake c kind x isCtl =>
-        match hs_phaseA v k c kind x s with
-        | (s2, None) => (s2, (true, 0), false)
+        (* injection point 9: RemoteAddr(), reached only on the path that creates the control record *)
+        let '(sJ, f9) := match get c (reg s) with
+                         | None => if mem c (sess s) then inject v k inj 9 c s else (s, false)
+                         | Some _ => (s, false)
+                         end in
+        match (if f9 then hs_phaseA_late v k c kind x sJ else hs_phaseA v k c kind x s) with
+        | (s2, None) => (s2, (true, 0), f9)
         | (s2, Some r') =>
             let '(s3, f0) := inject v k inj 0 c s2 in          (* before WritePacket *)
             let wok := write_ok c s3 in
             let '(s4, f1) := inject v k inj 1 c s3 in          (* after WritePacket *)
-            let f := f0 || f1 in
+            let f := f9 || f0 || f1 in
             if hs_rejected kind x then (s4, (true, 0), f)
             else if negb wok then (s4, (true, 0), f)
             else if hs_block kind x isCtl r' then (hs_phaseB v c (c_cid r') s4, (false, 0), f)
